@@ -377,6 +377,11 @@ pub fn decode_int(b: &[u8], off: usize) -> (u64, usize, bool) {
 /// Symbolic name path through the Path hook: (path, root, segments)
 pub fn sym_path<const S: usize>() -> (acpi_tables::aml::Path, bool, [[u8; 4]; S]) {
     let root: bool = kani::any();
+    sym_path_r::<S>(root)
+}
+
+/// Same with the caller choosing `root` (concrete root keeps every Vec length concrete).
+pub fn sym_path_r<const S: usize>(root: bool) -> (acpi_tables::aml::Path, bool, [[u8; 4]; S]) {
     let segs: [[u8; 4]; S] = kani::any();
     let mut v = Vec::with_capacity(S);
     let mut i = 0;
@@ -402,4 +407,33 @@ pub fn ref_namestring<const N: usize, const S: usize>(e: &mut Exp<N>, root: bool
         e.bytes(&segs[i]);
         i += 1;
     }
+}
+
+impl<const N: usize> Exp<N> {
+    pub fn blob<const M: usize>(&mut self, b: &Blob<M>) -> &mut Self {
+        let mut i = 0;
+        while i < M {
+            if i < b.len {
+                self.u8(b.data[i]);
+            }
+            i += 1;
+        }
+        self
+    }
+}
+
+/// opcode bytes + shortest self-inclusive PkgLength + body
+pub fn ref_pkg_object<const B: usize, const N: usize>(op: &[u8], body: &Exp<B>) -> Exp<N> {
+    let mut e: Exp<N> = Exp::new();
+    e.bytes(op);
+    ref_pkglen_incl(&mut e, body.n);
+    e.append(body);
+    e
+}
+
+/// For a length-prefixed object whose opcode is `oplen` bytes: does the PkgLength (decoded by
+/// the specification's rule) end exactly at the end of the emitted bytes?
+pub fn pkg_closes<const N: usize>(r: &Rec<N>, oplen: usize) -> bool {
+    let (val, _n, fmt) = decode_pkglen(&r.buf, oplen);
+    fmt && oplen + val == r.len
 }
